@@ -13,6 +13,8 @@ def M(name, module, cfg, **kw):
 
 MC_POLY = M("poly", "MC_Poly.tla", "MC_Poly.cfg")
 MC_INST = M("instsm", "MC_InstSM.tla", "MC_InstSM.cfg")
+# the same state machine with the id-creating calls (log-encode + substitute, integer slack) enabled
+MC_INST_NEW = {"name": "instsm_new", "module": "MC_InstSM.tla", "cfg_quick": "MC_InstSM_N.cfg", "cfg_thorough": "MC_InstSM_NT.cfg", "timeout": 6000}
 MC_INTERVAL = {"name": "interval", "module": "MC_Interval.tla", "cfg_quick": "MC_Interval.cfg"}
 MC_EVALDEPS = {"name": "evaldeps", "module": "EvalDeps.tla", "cfg_quick": "EvalDeps_Q.cfg", "cfg_thorough": "EvalDeps.cfg"}
 
@@ -28,6 +30,9 @@ def schema_events(wd, quick, seed):
     evs.append({"ev": "artifact_file", "case": "legacy-artifact", "src": "static", "in": {"path": repo + "/data/random_lp_instance.ommx"}})
     return evs
 
+# every history of the instance state machine as a seq vector (direction A for MC_InstSM)
+GSM_S = G("instsm_hist", "Gen_InstSM_S.cfg", module="Gen_InstSM.tla", cfg_thorough="Gen_InstSM.cfg")
+GSM = G("instsm_hist", "Gen_InstSM.cfg", module="Gen_InstSM.tla", cfg_thorough="Gen_InstSM_T.cfg")
 GI = lambda name, cfgname: G(name, f"Gen_Inst_{cfgname}.cfg", module="Gen_Inst.tla")
 
 PLAN = {
@@ -46,12 +51,12 @@ PLAN = {
     },
     "C03": {
         "mc": [MC_POLY, MC_INST], "lift_every": 17,
-        "gen": [G("partial", "Gen_Fn_Partial.cfg")],
+        "gen": [G("partial", "Gen_Fn_Partial.cfg"), GSM_S],
         "drive": [D("partial_fn", 3000, 200000), D("commute", 800, 40000), D("mixed", 300, 15000)],
     },
     "C04": {
         "mc": [MC_POLY, MC_INST, MC_EVALDEPS], "lift_every": 17,
-        "gen": [G("subst", "Gen_Fn_Subst.cfg")],
+        "gen": [G("subst", "Gen_Fn_Subst.cfg"), GSM_S],
         "drive": [D("subst_fn", 2000, 100000), D("inst_subst", 800, 40000), D("deps_order", 300, 5000), D("chain_encode", 300, 10000), D("mixed", 300, 15000)],
     },
     "C05": {
@@ -87,19 +92,19 @@ PLAN = {
         "exhaustive_note": "all small binary objectives of the family BinObjs (every representation, powers, three distinct variables) x {pubo, qubo} x {ok, maximise, constrained, non-binary}",
     },
     "C12": {
-        "mc": [M("logencode", "MC_LogEncode.tla", "MC_LogEncode.cfg")], "gen": [GI("logencode", "LogEncode")], "drive": [D("log_encode", 1000, 50000), D("mixed", 300, 15000)],
+        "mc": [M("logencode", "MC_LogEncode.tla", "MC_LogEncode.cfg"), MC_INST_NEW], "proofs": ["CompleteSequence.tla"], "gen": [GI("logencode", "LogEncode"), GSM_S], "drive": [D("log_encode", 1000, 50000), D("mixed", 300, 15000)],
         "exhaustive_note": "every (l,u) in halves in [-8,8]; quarters and tenths with independent fractional parts; every width 1..600 (quick) / 4096 (thorough) at 3 offsets up to 2^20; every error condition",
     },
     "C13": {
-        "mc": [M("slack", "MC_Slack.tla", "MC_Slack.cfg", workers=12)], "gen": [GI("slack", "Slack")], "drive": [D("slack", 1000, 40000), D("mixed", 300, 15000)],
+        "mc": [M("slack", "MC_Slack.tla", "MC_Slack.cfg", workers=12), MC_INST_NEW], "gen": [GI("slack", "Slack"), GSM_S], "drive": [D("slack", 1000, 40000), D("mixed", 300, 15000)],
         "exhaustive_note": "every f of the family SlackF (linear and bilinear, coefficients {-2,-1,1,1/2,-1/3}) x 3x3 boxes x both conversions x 2 limits, every lattice point and slack value; each rejection condition",
     },
     "C14": {
-        "mc": [MC_INST], "gen": [GI("histories", "Histories")], "drive": [D("relax_restore", 600, 30000), D("mixed", 300, 15000)],
+        "mc": [MC_INST], "gen": [GI("histories", "Histories"), GSM], "drive": [D("relax_restore", 600, 30000), D("mixed", 300, 15000)],
         "exhaustive_note": "all relax/restore histories of length <= 3 (quick) / 4 (thorough) over 8 operations (known, unknown, wrong-list ids, empty reason) on an instance with 3 constraints, each followed by an evaluation",
     },
     "C15": {
-        "mc": [MC_INST, {"name": "best", "module": "MC_Best.tla", "cfg_quick": "MC_Best.cfg"}], "gen": [GI("best", "Best")],
+        "mc": [MC_INST, {"name": "best", "module": "MC_Best.tla", "cfg_quick": "MC_Best.cfg"}], "gen": [GI("best", "Best"), GSM_S],
         "drive": [D("as_min", 500, 20000), D("best", 1500, 60000), D("mixed", 300, 15000)],
         "exhaustive_note": "all sample sets over <= 3 ids with objectives {0,1}, every feasibility pattern, both senses, current and legacy layout, objectives stored per id or grouped by value, direct and through encode/decode",
     },
